@@ -170,7 +170,7 @@ def explore(world, harness, max_paths=200000, panic_is_violation=True, stop_at_f
             res.infeasible += 1
         except Violation as v:
             res.violations.append({'msg': v.msg, 'witness': v.witness, 'extra': v.extra,
-                                   'trace': [t[:3] for t in ex.trace]})
+                                   'trace': [list(t) for t in ex.trace]})
         except RustPanic as p:
             res.panics += 1
             if panic_is_violation:
@@ -178,7 +178,7 @@ def explore(world, harness, max_paths=200000, panic_is_violation=True, stop_at_f
                 res.violations.append({'msg': 'panic: %s' % p.msg, 'where': p.where,
                                        'witness': witness_of(ex, m) if m is not None else {},
                                        'extra': ex.env.get('witness_extra'),
-                                       'trace': [t[:3] for t in ex.trace]})
+                                       'trace': [list(t) for t in ex.trace]})
         except (Unsupported, BoundExceeded) as u:
             res.inconclusive.append('%s: %s' % (type(u).__name__, u))
         except RecursionError:
@@ -218,3 +218,32 @@ def explore(world, harness, max_paths=200000, panic_is_violation=True, stop_at_f
             break
     res.wall_s = time.time() - t0
     return res
+
+
+def replay_native(world, harness, violation, runner):
+    """Re-run the violating path with the inputs pinned to the witness and the *real build* substituted
+    for the MIR execution of the operator under test (`runner(kind, args) -> {'dev':..,'release':..}`).
+    Returns (confirmed, detail)."""
+    details = {}
+    confirmed = False
+    for prof in ('dev', 'release'):
+        ex = Executor(world, violation['trace'])
+        ex.env['pin'] = dict(violation.get('witness') or {})
+        ex.env['native'] = (runner, prof)
+        ex.env['eager_checks'] = True
+        try:
+            harness(ex)
+            details[prof] = 'real build satisfies the property on this input (%s)' % (ex.env.get('native_out'),)
+        except Violation as v:
+            confirmed = True
+            details[prof] = 'CONFIRMED: %s; native output: %s' % (v.msg, ex.env.get('native_out'))
+        except RustPanic as p:
+            confirmed = True
+            details[prof] = 'CONFIRMED: panic %s' % p.msg
+        except Infeasible:
+            details[prof] = 'replay path infeasible (witness does not drive this path)'
+        except (Unsupported, BoundExceeded) as u:
+            details[prof] = 'replay inconclusive: %s' % u
+        if 'native_used' not in ex.env:
+            details[prof] += ' [harness has no native hook]'
+    return confirmed, details
